@@ -1,4 +1,7 @@
 //! C17: histories of (program, budget, maybe clear, run) on one Vm; every step is also run on a fresh Vm.
+//! Two kinds of history: `Hist` (1 GiB limit, no collection runs: the model Vm.v follows every step) and
+//! `HistMem` (a small memory limit, 300 bytes .. 64 KiB, chosen so that runs end in OutOfMemory at every kind
+//! of allocation site; only the fresh-Vm oracle and the allocator-counter oracle apply, see C17Check.v).
 use crate::out::{self, CaseWriter};
 use crate::rng::Rng;
 use crate::vmgen;
@@ -33,16 +36,27 @@ pub fn gen(a: &Args) {
     let corpus: Vec<vmgen::Entry> = vmgen::corpus().into_iter().filter(|e| e.history == 0).collect();
     let fresh_counters = counters(&vmrun::new_vm(1));
     let mut attempts = 0usize;
+    let plan = mem_plan();
+    let mut mem_histories = 0usize;
+    let mut plain_histories = 0usize;
     while w.len() < a.n && attempts < a.n * 4 {
         attempts += 1;
         out::describe_current(&format!("C17 history #{}", attempts));
+        if attempts % 3 == 0 {
+            mem_history(&mut w, &mut rng, &plan, &corpus, mem_histories);
+            mem_histories += 1;
+            continue;
+        }
+        plain_histories += 1;
         // 1-4 programs per history: corpus entries and random modules
         let np = 1 + rng.below(4) as usize;
         let mut progs = vec![];
         let mut printed = vec![];
-        for _ in 0..np {
-            let m = if rng.chance(1, 2) {
-                let e = &corpus[rng.below(corpus.len() as u64) as usize];
+        for pk in 0..np {
+            // the first program of the k-th modelled history is corpus entry k (round robin), so that every
+            // error path of the corpus occurs whatever the seed
+            let m = if pk == 0 || rng.chance(1, 2) {
+                let e = if pk == 0 { &corpus[plain_histories % corpus.len()] } else { &corpus[rng.below(corpus.len() as u64) as usize] };
                 w.count(&format!("prog.corpus.{}", e.name));
                 e.module.clone()
             } else {
@@ -125,4 +139,360 @@ pub fn gen(a: &Args) {
         w.push(term, kinds.len() >= 2 || nsteps >= 10);
     }
     w.finish(serde_json::json!({"profile": if cfg!(debug_assertions) { "debug" } else { "release" }}));
+}
+
+// ---------------------------------------------------------------------------------------------
+// histories under a small memory limit
+
+use crate::vmgen::{add, append, closure, fval, int, module, func, nval, repeat, ret, rv, s, sv, table};
+use cao_lang::compiler::Module;
+
+/// Programs whose allocations are of known kinds, in a known order (no natives, no calls)
+const T_STRINGS: usize = 0;
+const T_TABLES: usize = 1;
+const T_GROWTH: usize = 2;
+const T_FUNCTIONS: usize = 3;
+const T_NATIVES: usize = 4;
+const T_CLOSURES: usize = 5;
+const T_UPVALUES: usize = 6;
+const T_BIG_STRINGS: usize = 7;
+const T_BIG_GROWTH: usize = 8;
+
+fn mem_templates() -> Vec<(&'static str, Module)> {
+    let many = |n: usize, pre: &str, mk: &dyn Fn(usize) -> Card| -> Vec<Card> {
+        (0..n).map(|i| sv(&format!("{}{}", pre, i), mk(i))).collect()
+    };
+    let lens = [1usize, 3, 17, 40, 9, 120, 2, 60];
+    let mut caps: Vec<Card> = many(90, "a", &|i| int(i as i64));
+    // one closure that captures all 90 locals: closure header, then 90 upvalue objects
+    let mut sum = int(0);
+    for i in 0..90 {
+        sum = add(rv(&format!("a{}", i)), sum);
+    }
+    caps.push(sv("c", closure(&[], vec![ret(sum)])));
+    vec![
+        // string header + string characters, kept alive as locals
+        ("mem_strings", module(vec![("main", func(&[], many(110, "s", &|i| s(&"s".repeat(lens[i % lens.len()])))))])),
+        // table header + initial storage
+        ("mem_tables", module(vec![("main", func(&[], many(110, "t", &|_| table())))])),
+        // one table that grows
+        ("mem_table_growth", module(vec![("main", func(&[], vec![
+            sv("t", table()),
+            repeat(int(500), Some("i"), append(rv("i"), rv("t"))),
+        ]))])),
+        ("mem_functions", module(vec![
+            ("main", func(&[], many(110, "f", &|_| fval("g")))),
+            ("g", func(&[], vec![ret(int(1))])),
+        ])),
+        ("mem_natives", module(vec![("main", func(&[], many(110, "n", &|_| nval("log1"))))])),
+        ("mem_closures", module(vec![("main", func(&[], many(110, "c", &|_| closure(&[], vec![ret(int(1))]))))])),
+        ("mem_upvalues", module(vec![("main", func(&[], caps))])),
+        // the same two shapes with more bytes, for the upper end of the limit range
+        ("mem_big_strings", module(vec![("main", func(&[], many(110, "s", &|i| s(&"b".repeat(100 + 19 * (i % 8))))))])),
+        ("mem_big_table_growth", module(vec![("main", func(&[], vec![
+            sv("t", table()),
+            repeat(int(3000), Some("i"), append(rv("i"), rv("t"))),
+        ]))])),
+    ]
+}
+
+/// the allocation that was refused in the recorded events: (index among the allocations, size)
+fn refused(evs: &[hooks::AllocEvent]) -> Option<(usize, usize)> {
+    let mut idx = 0usize;
+    let mut cur = (0usize, 0usize);
+    let mut last = None;
+    for e in evs {
+        match e {
+            hooks::AllocEvent::AllocBegin { size, .. } => {
+                cur = (idx, *size);
+                idx += 1;
+            }
+            hooks::AllocEvent::AllocEnd { ok: false, .. } => last = Some(cur),
+            _ => {}
+        }
+    }
+    last
+}
+
+/// kind of allocation site at which a template program was refused
+fn site_of(template: usize, idx: usize, size: usize) -> &'static str {
+    let header = hooks::layouts()[0].0;
+    let is_header = size == header;
+    match template {
+        T_STRINGS | T_BIG_STRINGS => if is_header { "string_header" } else { "string_chars" },
+        T_TABLES => if is_header { "table_header" } else { "table_storage_initial" },
+        T_GROWTH | T_BIG_GROWTH => match idx { 0 => "table_header", 1 => "table_storage_initial", _ => "table_storage_growth" },
+        T_FUNCTIONS => "function_object",
+        T_NATIVES => "native_function_object",
+        T_CLOSURES => "closure",
+        T_UPVALUES => if idx == 0 { "closure" } else { "upvalue" },
+        _ => "other",
+    }
+}
+
+pub const SITES: &[&str] = &[
+    "string_header", "string_chars", "table_header", "table_storage_initial", "table_storage_growth", "closure",
+    "upvalue", "function_object", "native_function_object",
+];
+
+pub struct MemPlan {
+    names: Vec<&'static str>,
+    progs: Vec<CaoCompiledProgram>,
+    printed: Vec<vmrun::Printed>,
+    /// site -> (template, limit) at which a fresh Vm is refused at that site
+    at: std::collections::BTreeMap<&'static str, Vec<(usize, usize)>>,
+}
+
+fn limited_vm(budget: u64, limit: usize) -> Vm<'static, vmrun::Host> {
+    let mut vm = vmrun::new_vm(budget);
+    vm.runtime_data.set_memory_limit(limit);
+    vm
+}
+
+fn is_oom(o: &vmrun::Obs) -> bool {
+    matches!(&o.kind, Kind::Err(e) if e == "EOutOfMemory")
+}
+
+/// run every template under a ladder of limits and note where each one is refused
+fn mem_plan() -> MemPlan {
+    let mut names = vec![];
+    let mut progs = vec![];
+    let mut printed = vec![];
+    for (name, m) in mem_templates() {
+        let p = compile(m, None).unwrap_or_else(|e| panic!("template {} does not compile: {:?}", name, e));
+        printed.push(vmrun::program_term(&p));
+        progs.push(p);
+        names.push(name);
+    }
+    let mut at: std::collections::BTreeMap<&'static str, Vec<(usize, usize)>> = Default::default();
+    let mut limit = 300usize;
+    while limit <= 65536 {
+        for t in 0..progs.len() {
+            out::describe_current(&format!("C17 plan: template {} limit {}", names[t], limit));
+            let mut vm = limited_vm(GENEROUS, limit);
+            hooks::record_events(true);
+            let o = vmrun::observe(&mut vm, &progs[t], &printed[t]);
+            let evs = hooks::take_events();
+            hooks::record_events(false);
+            if o.kind == Kind::Panic { std::mem::forget(vm); continue; }
+            if is_oom(&o) {
+                if let Some((idx, size)) = refused(&evs) {
+                    at.entry(site_of(t, idx, size)).or_default().push((t, limit));
+                }
+            }
+        }
+        limit += (limit / 7).max(24);
+    }
+    MemPlan { names, progs, printed, at }
+}
+
+fn counters_mem(vm: &Vm<'static, vmrun::Host>) -> Vec<u64> {
+    let (allocated, next_gc, limit) = hooks::alloc_counters(&vm.runtime_data);
+    let (h, d) = hooks::stack_heights(&vm.runtime_data);
+    vec![
+        allocated as u64,
+        next_gc as u64,
+        limit as u64,
+        h as u64,
+        d as u64,
+        hooks::object_count(&vm.runtime_data) as u64,
+        hooks::global_count(&vm.runtime_data) as u64,
+    ]
+}
+
+/// 0 = not even the empty string fits; L + 1 = the longest string that a cleared Vm can hold has L bytes.
+/// The Vm is cleared after every probe.
+fn sweep(vm: &mut Vm<'static, vmrun::Host>, limit: usize) -> u64 {
+    let mut fits = |len: usize| -> bool {
+        let text = "x".repeat(len);
+        let ok = vm.init_string(&text).is_ok();
+        vm.clear();
+        ok
+    };
+    if !fits(0) {
+        return 0;
+    }
+    // invariant: lo fits, hi does not
+    let (mut lo, mut hi) = (0usize, limit / 4 + 2);
+    while lo + 1 < hi {
+        let mid = (lo + hi) / 2;
+        if fits(mid) { lo = mid } else { hi = mid }
+    }
+    lo as u64 + 1
+}
+
+fn owned(rng: &mut Rng) -> (OwnedValue, &'static str) {
+    if rng.chance(1, 2) {
+        let len = [0usize, 5, 60, 700, 5000][rng.below(5) as usize] + rng.below(40) as usize;
+        (OwnedValue::String("o".repeat(len)), "string")
+    } else {
+        // integer keys and values only: nothing but the table itself is allocated while it is filled
+        let n = [0usize, 5, 9, 40, 300, 1500][rng.below(6) as usize];
+        let entries = (0..n).map(|i| OwnedEntry { key: OwnedValue::Integer(i as i64), value: OwnedValue::Real(i as f64) }).collect();
+        (OwnedValue::Table(entries), "table")
+    }
+}
+
+/// [1 if Ok else 0 (OutOfMemory) / 2 (another error); allocated; objects]
+fn insert_obs(vm: &mut Vm<'static, vmrun::Host>, v: &OwnedValue) -> (Vec<u64>, bool) {
+    let r = vm.insert_value(v);
+    let code = match &r {
+        Ok(_) => 1,
+        Err(ExecutionErrorPayload::OutOfMemory) => 0,
+        Err(_) => 2,
+    };
+    let (allocated, _, _) = hooks::alloc_counters(&vm.runtime_data);
+    (vec![code, allocated as u64, hooks::object_count(&vm.runtime_data) as u64], code == 0)
+}
+
+fn mem_history(w: &mut CaseWriter, rng: &mut Rng, plan: &MemPlan, corpus: &[vmgen::Entry], k: usize) {
+    w.count("history.limited_memory");
+    // the site this history aims at, and a (template, limit) that is refused there on a fresh Vm
+    let target = SITES[k % SITES.len()];
+    let (tt, tlimit) = match plan.at.get(target) {
+        Some(v) if !v.is_empty() => v[rng.below(v.len() as u64) as usize],
+        _ => (rng.below(plan.progs.len() as u64) as usize, 300 + rng.below(65_000) as usize),
+    };
+    // the first round uses the planned limit as it is, later rounds move it a little
+    let limit = if k < SITES.len() { tlimit } else { tlimit + rng.below(48) as usize };
+    // programs: the targeted template, one or two other templates, error-path programs of the corpus, maybe a random one
+    let mut progs: Vec<CaoCompiledProgram> = vec![];
+    let mut printed: Vec<vmrun::Printed> = vec![];
+    let mut template_of: Vec<Option<usize>> = vec![];
+    let add_template = |t: usize, progs: &mut Vec<CaoCompiledProgram>, printed: &mut Vec<vmrun::Printed>, template_of: &mut Vec<Option<usize>>| {
+        progs.push(plan.progs[t].clone());
+        printed.push(vmrun::program_term(&plan.progs[t]));
+        template_of.push(Some(t));
+    };
+    add_template(tt, &mut progs, &mut printed, &mut template_of);
+    for _ in 0..1 + rng.below(2) {
+        let t = rng.below(plan.progs.len() as u64) as usize;
+        add_template(t, &mut progs, &mut printed, &mut template_of);
+    }
+    const ERROR_PATHS: &[&str] = &[
+        "infinite_loop", "stack_overflow", "infinite_recursion", "native_fail", "native_conversion_error",
+        "reentry_error_propagates", "reentry_call_stack_full", "closures_in_loop", "tables", "natives",
+    ];
+    for _ in 0..1 + rng.below(3) {
+        let m = if rng.chance(3, 4) {
+            let name = ERROR_PATHS[rng.below(ERROR_PATHS.len() as u64) as usize];
+            match corpus.iter().find(|e| e.name == name) {
+                Some(e) => { w.count(&format!("mem.prog.corpus.{}", name)); e.module.clone() }
+                None => continue,
+            }
+        } else {
+            w.count("mem.prog.random");
+            let reals = rng.chance(1, 2);
+            let mut sub = Rng::new(rng.next());
+            vmgen::Gen::new(&mut sub, reals).module()
+        };
+        if let Ok(Ok(p)) = catch_unwind(AssertUnwindSafe(|| compile(m, None))) {
+            printed.push(vmrun::program_term(&p));
+            progs.push(p);
+            template_of.push(None);
+        }
+    }
+    let fresh_counters = counters_mem(&limited_vm(1, limit));
+    let fit_fresh = sweep(&mut limited_vm(1, limit), limit);
+    let mut vm = limited_vm(GENEROUS, limit);
+    let nsteps = 5 + rng.below(14) as usize;
+    let mut steps: Vec<String> = vec![];
+    let mut kinds = std::collections::BTreeSet::new();
+    let mut poisoned = false;
+    let mut oom_pending = false; // an OutOfMemory happened and no clear since
+    for j in 0..nsteps {
+        out::describe_current(&format!("C17 limited history #{} (limit {}) step {}", k, limit, j));
+        let clear = j > 0 && rng.chance(1, 2);
+        let cleared_counters = if clear {
+            vm.clear();
+            w.count("mem.step.clear");
+            if oom_pending { w.count("mem.clear_after_OutOfMemory"); oom_pending = false; }
+            Some(nlist(&counters_mem(&vm)))
+        } else {
+            None
+        };
+        let after_clear = out::opt(cleared_counters.clone());
+        match rng.below(10) {
+            0 | 1 => {
+                // OwnedValue insertion from the host
+                let (v, what) = owned(rng);
+                let (r, oom) = insert_obs(&mut vm, &v);
+                let mut fresh = limited_vm(1, limit);
+                let (rf, _) = insert_obs(&mut fresh, &v);
+                w.count("mem.step.insert_value");
+                if oom { w.count(&format!("oom.owned_value_{}", what)); oom_pending = true; kinds.insert("EOutOfMemory".to_string()); }
+                steps.push(format!("(MInsert {} {} {} {})", out::b(clear), after_clear, nlist(&r), nlist(&rf)));
+            }
+            2 if clear => {
+                let fit = sweep(&mut vm, limit);
+                w.count("mem.step.sweep");
+                steps.push(format!("(MSweep {} {} {} {})", cleared_counters.clone().unwrap(), nlist(&counters_mem(&vm)), out::n(fit), out::n(fit_fresh)));
+            }
+            _ => {
+                // the first step runs the targeted template on the new Vm
+                let pi = if j == 0 { 0 } else { rng.below(progs.len() as u64) as usize };
+                let budget = match rng.below(6) {
+                    0 => 1 + rng.below(60),
+                    1 => 1 + rng.below(400),
+                    _ => GENEROUS,
+                };
+                let budget = if j == 0 { GENEROUS } else { budget };
+                vm.get_aux_mut().log.clear();
+                vm.max_instr = budget;
+                hooks::record_events(true);
+                let o = vmrun::observe(&mut vm, &progs[pi], &printed[pi]);
+                let evs = hooks::take_events();
+                hooks::record_events(false);
+                let mut fresh = limited_vm(budget, limit);
+                let of = vmrun::observe(&mut fresh, &progs[pi], &printed[pi]);
+                if of.kind == Kind::Panic { std::mem::forget(fresh); }
+                w.count("mem.step.run");
+                match &o.kind {
+                    Kind::Ok => { kinds.insert("Ok".to_string()); w.count("mem.outcome.Ok") }
+                    Kind::Panic => { kinds.insert("Panic".to_string()); w.count("mem.outcome.Panic") }
+                    Kind::Err(e) => {
+                        let short = e.trim_start_matches('(').split(' ').next().unwrap_or("").to_string();
+                        kinds.insert(short.clone());
+                        w.count(&format!("mem.outcome.{}", short));
+                        if e.contains("EOutOfMemory") {
+                            oom_pending = true;
+                            let site = match (template_of[pi], refused(&evs)) {
+                                (Some(t), Some((idx, size))) if is_oom(&o) => site_of(t, idx, size),
+                                _ => "other",
+                            };
+                            w.count(&format!("oom.{}", site));
+                        }
+                    }
+                }
+                steps.push(format!(
+                    "(MRun {} {} {} {} {} {})",
+                    out::nat(pi), out::n(budget), out::b(clear), after_clear, o.term, of.term
+                ));
+                if o.kind == Kind::Panic {
+                    poisoned = true;
+                    break;
+                }
+            }
+        }
+    }
+    if !poisoned {
+        // every history ends with clear + counters + sweep
+        vm.clear();
+        if oom_pending { w.count("mem.clear_after_OutOfMemory"); }
+        let c0 = counters_mem(&vm);
+        let fit = sweep(&mut vm, limit);
+        w.count("mem.step.sweep");
+        steps.push(format!("(MSweep {} {} {} {})", nlist(&c0), nlist(&counters_mem(&vm)), out::n(fit), out::n(fit_fresh)));
+    } else {
+        std::mem::forget(vm);
+    }
+    let term = format!(
+        "(HistMem {} {} {} {} {})",
+        out::b(cfg!(debug_assertions)),
+        out::n(limit as u64),
+        nlist(&fresh_counters),
+        out::list(printed.iter().map(|p| p.term.clone())),
+        out::list(steps)
+    );
+    w.push(term, kinds.len() >= 2);
 }
